@@ -120,7 +120,7 @@ def c08(A):
             # "configured when it was first sent"; a message held back across a
             # reconnect was configured on another protocol object: either reading is accepted
             t0 = first["timeout"]
-            if r is not None:
+            if r is not None and kind == "PUBLISH":
                 t0 = min(t0, A.calls[r.i_call]["timeout"])
             gaps = []
             for x, y in zip(lst, lst[1:]):
@@ -131,7 +131,7 @@ def c08(A):
                     o.bad("retransmission-too-early/%s/%s" % (kind, sub),
                           "%s repeated %.3f s after the previous transmission, initial timeout was %s" % (kind, g, t0), y)
                     break
-            if kind == "PUBLISH" and len(gaps) >= 2:
+            if kind == "PUBLISH" and len(gaps) >= 2 and not A.stall_total:     # (a blocked reactor stretches single gaps)
                 o.dec("gap_pairs", len(gaps) - 1)
                 for (g1, x1, y1), (g2, x2, y2) in zip(gaps, gaps[1:]):
                     if g2 < g1 - 4e-6:
@@ -276,7 +276,7 @@ def c13(A):
                                 open_pings = open_pings[:-1]   # answers the latest PINGREQ only
                             else:
                                 open_pings.append(t)
-                    emax += min(2, sum(1 for t in open_pings if t + c.keepalive >= sn["t"] - A.cfg.late - 1e-6))
+                    emax += min(2, sum(1 for t in open_pings if t + c.keepalive >= sn["t"] - A.cfg.late - A.stall_total - 1e-6))
             for r in connect_reqs.get(c.idx, []):
                 if r.i_ret < i_s and not r.fired_before(i_s):
                     emax += 1
